@@ -46,7 +46,12 @@ Qed.
 Lemma run_ctx_inf_iff c :
   run_ctx c = Inf <-> cfg_caller c = Inf /\ (cfg_pfs c = true \/ cfg_regen c = true).
 Proof.
-  unfold run_ctx. destruct (cfg_pfs c), (cfg_regen c), (cfg_caller c); cbn; split;
+  unfold run_ctx, ctx_of, c_ctx_regen, c_ctx_pfs_perm, c_ctx_connect_pfs, c_ctx_connect_nonpfs.
+  destruct (cfg_pfs c), (cfg_regen c), (cfg_caller c); cbn; split;
     try (intros H; discriminate H); try tauto;
     try (intros [H1 [H2|H2]]; discriminate); intros [H _]; discriminate.
 Qed.
+
+(* both exchanges of a PFS connect get the same context *)
+Lemma pfs_temp_same_ctx : c_ctx_pfs_temp = c_ctx_pfs_perm.
+Proof. reflexivity. Qed.
